@@ -1,5 +1,7 @@
 // C10 conformance driver: (a) RSS fits of stump / hinge / affine / dense-table / dstep-table on small integer datasets, recorded
-// with the data for a brute-force search by TLC (WeakLearner.tla); (b) the algebraic consistency clauses for all weak learners.
+// with the data for a brute-force search by TLC (WeakLearner.tla; the tables over single-label and multi-label features); (b) the
+// algebraic consistency clauses for all weak learners (predictions / groups also for sub-lists, unsorted and repeated sample lists;
+// trees also on >= 100 samples where the minimum node size matters).
 //   wlearner_driver <out.ndjson> <seed> <exact-cases> <algebra-cases>
 #include "tabledata.h"
 #include <nano/dataset.h>
@@ -109,7 +111,10 @@ void exact_case(vt::Rng& rng, int64_t icase)
     const auto n     = rng.range(2, 12);
     const auto kind  = rng.pick(std::vector<std::string>{"stump", "hinge", "affine", "dense-table", "dstep-table"});
     const auto table = kind == "dense-table" || kind == "dstep-table";
-    const auto D     = make_data(rng, n, table ? rng.range(0, 1) : rng.range(1, 3), table ? rng.range(1, 3) : rng.range(0, 1), 0, rng.range(1, 2), 3, true);
+    // tables: single-label and multi-label features (at least one of them); a multi-label value is the set of its labels
+    const auto nsclass = table ? rng.range(0, 2) : rng.range(0, 1);
+    const auto nmclass = table ? rng.range(nsclass == 0 ? 1 : 0, 2) : 0;
+    const auto D       = make_data(rng, n, table ? rng.range(0, 1) : rng.range(1, 3), nsclass, nmclass, rng.range(1, 2), 3, true);
     const auto g     = make_gradients(rng, D, true);
     const auto pos   = make_positions(rng, n, 2, 12);
 
@@ -129,10 +134,27 @@ void exact_case(vt::Rng& rng, int64_t icase)
         std::vector<int64_t> values;
         for (int64_t s = 0; s < n; ++s)
         {
-            values.push_back(column.missing[static_cast<size_t>(s)] != 0 ? Missing : static_cast<int64_t>(column.at(s)));
+            if (column.missing[static_cast<size_t>(s)] != 0)
+            {
+                values.push_back(Missing);
+            }
+            else if (feature.is_mclass())
+            {
+                // the label set as a bit mask
+                int64_t mask = 0;
+                for (int64_t k = 0; k < column.width; ++k)
+                {
+                    mask += column.at(s, k) != 0.0 ? (int64_t{1} << k) : 0;
+                }
+                values.push_back(mask);
+            }
+            else
+            {
+                values.push_back(static_cast<int64_t>(column.at(s)));
+            }
         }
         X.push_back(values);
-        kinds += std::string(f ? "," : "") + (feature.is_sclass() ? "\"sclass\"" : "\"scalar\"");
+        kinds += std::string(f ? "," : "") + (feature.is_sclass() ? "\"sclass\"" : feature.is_mclass() ? "\"mclass\"" : "\"scalar\"");
     }
     kinds += "]";
     std::vector<std::vector<int64_t>> R;
@@ -195,10 +217,12 @@ const tensor4d_t* tables_of(const wlearner_t& w)
 
 void algebra_case(vt::Rng& rng, int64_t icase)
 {
-    const auto n    = rng.range(2, 60);
     const auto kind = rng.pick(std::vector<std::string>{"affine", "hinge", "stump", "dense-table", "kbest-table", "ksplit-table", "dstep-table", "dtree"});
+    // trees stop splitting nodes with less than min(10, samples * min_split / 100) samples: that needs >= 100 samples to matter
+    const auto large = kind == "dtree" && rng.coin(1, 2);
+    const auto n     = large ? rng.range(100, 200) : rng.range(2, 60);
     const auto crit = rng.pick(std::vector<std::string>{"rss", "aic", "aicc", "bic"});
-    const auto scalar_only = kind == "dtree" && rng.coin();
+    const auto scalar_only = kind == "dtree" && !large && rng.coin();
     // 1..8 features: scalar, categorical with 1..6 classes, multi-label
     const auto D = make_data(rng, n, rng.range(1, 4), scalar_only ? 0 : rng.range(0, 3), scalar_only ? 0 : rng.range(0, 2), rng.range(1, 3), rng.coin() ? 3 : 50,
                              true, 6);
@@ -209,8 +233,8 @@ void algebra_case(vt::Rng& rng, int64_t icase)
     wlearner->parameter("wlearner::criterion") = crit;
     if (kind == "dtree")
     {
-        wlearner->parameter("wlearner::dtree::max_depth") = scalar_only ? 1 : rng.range(1, 4);
-        wlearner->parameter("wlearner::dtree::min_split") = rng.range(1, 3);
+        wlearner->parameter("wlearner::dtree::max_depth") = scalar_only ? 1 : large ? rng.range(2, 4) : rng.range(1, 4);
+        wlearner->parameter("wlearner::dtree::min_split") = large ? rng.range(1, 10) : rng.range(1, 3);
     }
     const auto score = wlearner->fit(*D.dataset, pos, g);
     if (!std::isfinite(score) || score == wlearner_t::no_fit_score())
@@ -293,6 +317,93 @@ void algebra_case(vt::Rng& rng, int64_t icase)
             }
         }
     }
+    // the same two clauses for lists that are not 0..n-1: strict subsets, any order, with repetitions
+    bool addsListOK = true, splitListOK = true;
+    {
+        indices_t list(rng.range(1, rng.coin() ? n : 2 * n));
+        for (auto& s : list)
+        {
+            s = rng.range(0, n - 1);
+        }
+        if (rng.coin())
+        {
+            // without repetitions
+            std::sort(list.begin(), list.end());
+            const auto size = static_cast<tensor_size_t>(std::unique(list.begin(), list.end()) - list.begin());
+            indices_t  unique(size);
+            std::copy(list.begin(), list.begin() + size, unique.begin());
+            for (tensor_size_t i = size; i > 1; --i)
+            {
+                std::swap(unique(i - 1), unique(rng.range(0, i - 1)));
+            }
+            list = unique;
+        }
+        // predictions are added to the given outputs: row i belongs to sample list(i)
+        tensor4d_t outs(cat_dims(list.size(), dataset.target_dims()));
+        for (tensor_size_t i = 0; i < outs.size(); ++i)
+        {
+            outs(i) = static_cast<double>(rng.range(-5, 5));
+        }
+        const auto outs0 = outs;
+        wlearner->predict(dataset, list, outs.tensor());
+        for (tensor_size_t i = 0; i < list.size(); ++i)
+        {
+            for (tensor_size_t k = 0; k < base.tensor(list(i)).size(); ++k)
+            {
+                const auto added    = outs.tensor(i)(k) - outs0.tensor(i)(k);
+                const auto expected = base.tensor(list(i))(k);
+                addsListOK          = addsListOK && std::fabs(added - expected) <= 1e-11 * (1.0 + std::fabs(added) + std::fabs(expected));
+            }
+        }
+        // split(list): only listed samples get a group, only when the selected feature is given (always then for the learners that
+        // predict for every given value); the prediction is the table of the group, zero without a group
+        const auto        sub = wlearner->split(dataset, list);
+        std::vector<char> listed(static_cast<size_t>(n), 0);
+        for (const auto s : list)
+        {
+            listed[static_cast<size_t>(s)] = 1;
+        }
+        const auto single = dynamic_cast<const single_feature_wlearner_t*>(wlearner.get()) != nullptr;
+        splitListOK       = sub.samples() == n;
+        for (int64_t s = 0; s < n && splitListOK; ++s)
+        {
+            const auto group = sub.group(s);
+            bool       given = true;
+            for (const auto f : features)
+            {
+                const auto col = static_cast<size_t>(std::atoll(dataset.feature(f).name().c_str() + 1));
+                given          = given && D.source->columns()[col].missing[static_cast<size_t>(s)] == 0;
+            }
+            if (listed[static_cast<size_t>(s)] == 0)
+            {
+                splitListOK = group < 0;
+                continue;
+            }
+            if (single)
+            {
+                splitListOK = splitListOK && (group < 0 || given);
+                if (kind == "stump" || kind == "affine")
+                {
+                    splitListOK = splitListOK && (group >= 0) == given;
+                }
+            }
+            if (group >= 0 && tablelike && tables != nullptr)
+            {
+                splitListOK = splitListOK && group < tables->size<0>();
+                for (tensor_size_t k = 0; splitListOK && k < base.tensor(s).size(); ++k)
+                {
+                    splitListOK = base.tensor(s)(k) == tables->tensor(group)(k);
+                }
+            }
+            else if (group < 0)
+            {
+                for (tensor_size_t k = 0; k < base.tensor(s).size(); ++k)
+                {
+                    splitListOK = splitListOK && base.tensor(s)(k) == 0.0;
+                }
+            }
+        }
+    }
     // scale(s) multiplies the predictions by s (per group for the table-like learners)
     bool scaleOK = true;
     {
@@ -360,7 +471,7 @@ void algebra_case(vt::Rng& rng, int64_t icase)
         tree1OK       = f1 == f2 && (!f1 || close(stump->predict(dataset, all), tree->predict(dataset, all), 1e-12));
     }
     vt::put(vt::J("WAlg").i("case", icase).s("kind", kind).s("criterion", crit).i("n", n).b("addsOK", addsOK).b("missingZeroOK", missingZeroOK).b(
-        "sampleOnlyOK", sampleOnlyOK).b("splitOK", splitOK).b("scaleOK", scaleOK).b("mergeOK", mergeOK).b("tree1OK", tree1OK));
+        "sampleOnlyOK", sampleOnlyOK).b("splitOK", splitOK).b("scaleOK", scaleOK).b("mergeOK", mergeOK).b("tree1OK", tree1OK).b("addsListOK", addsListOK).b("splitListOK", splitListOK));
 }
 } // namespace
 
@@ -397,6 +508,6 @@ int main(int argc, char* argv[])
         }
     }
     vt::put(vt::J("WAlg").i("case", -1).s("kind", "end").s("criterion", "").i("n", 0).b("addsOK", true).b("missingZeroOK", true).b("sampleOnlyOK", true).b(
-        "splitOK", true).b("scaleOK", true).b("mergeOK", true).b("tree1OK", true));
+        "splitOK", true).b("scaleOK", true).b("mergeOK", true).b("tree1OK", true).b("addsListOK", true).b("splitListOK", true));
     return 0;
 }
